@@ -19,6 +19,14 @@ CAMS = ["CAM_FRONT", "CAM_TRAFFIC_LIGHT", "CAM_BACK", "CAM_TRAFFIC_LIGHT_NEAR", 
 TL_CAM = 1
 TOL = 1e-9
 
+RULE = ("streams: boundary (hand-written: no GT, no estimates, all same label, duplicated labels, estimates without partner, leftover on "
+        "CAM_TRAFFIC_LIGHT, same uuid on several cameras, FP-labelled GT), malformed (uuid None, duplicated (uuid, camera)), exhaustive small "
+        "(len(ests)+len(gts)<=3 over 3 uuids x 2 cameras x 3 labels), all 3^(ne+ng) label assignments on two fixed (uuid, camera) structures "
+        "for 3..4 x 3..4 objects (both exhaustive streams are sampled in the quick tier), random <=4x4, random up to 30x30 on 1..3 of 5 cameras; "
+        "each object set is run as generic, traffic-light, traffic-light+uuid_matching_first with a random target-label list (subset, "
+        "permutation, duplicate, empty) and flat or per-frame nested result lists; non-trivial = at least one real pair and >= 3 objects; "
+        "second correspondence: ClassificationAccuracy on hand-made result lists with arbitrary num_ground_truth")
+
 _cache = {}
 
 
@@ -128,6 +136,21 @@ def small_space(max_total):
                 for gs in itertools.product(opts, repeat=ng):
                     if _valid_side(gs):
                         yield [list(o) for o in es], [list(o) for o in gs]
+
+
+LABEL_STRUCTS = [
+    # (estimate (uuid, camera) list, ground-truth (uuid, camera) list): labels are enumerated exhaustively
+    ([(0, 1), (1, 1), (2, 1), (3, 1)], [(3, 1), (2, 1), (1, 1), (0, 1)]),
+    ([(0, 1), (1, 1), (2, 3), (3, 3)], [(1, 1), (0, 1), (3, 3), (7, 3)]),
+]
+
+
+def label_space(ne, ng):
+    """every assignment of 3 labels to ne estimates and ng ground truths over the fixed (uuid, camera) structures"""
+    for es_s, gs_s in LABEL_STRUCTS:
+        for labs in itertools.product(range(3), repeat=ne + ng):
+            yield ([[u, c, labs[i]] for i, (u, c) in enumerate(es_s[:ne])],
+                   [[u, c, labs[ne + j]] for j, (u, c) in enumerate(gs_s[:ng])])
 
 
 def boundary_cases(rng):
@@ -240,7 +263,7 @@ def _undef(x):
     return x in ("inf", "nan")
 
 
-def _cmp_score(name, got, want):
+def _cmp_score(name, got, want, check_range=True):
     """want: Fraction or None (undefined)"""
     if want is None:
         return None if _undef(got) else f"{name} is {got} but its denominator is 0 (expected undefined)"
@@ -248,7 +271,7 @@ def _cmp_score(name, got, want):
         return f"{name} is {got} but the counting definition gives {float(want)}"
     if abs(Fraction(got) - want) > Fraction(1, 10 ** 9):
         return f"{name} = {got} but the counting definition gives {float(want)}"
-    if not (-1e-12 <= got <= 1.0 + 1e-12):
+    if check_range and not (-1e-12 <= got <= 1.0 + 1e-12):
         return f"{name} = {got} is outside [0, 1]"
     return None
 
@@ -278,11 +301,16 @@ class PipelineCorr(Corr):
             space = list(small_space(3))
             for es, gs in rng.sample(space, 250):
                 out += _three_modes(rng, es, gs, "exhaustive-small(sampled)")
-            out += random_cases(rng, 500, 150)
+            for es, gs in rng.sample(list(label_space(4, 4)), 150) + rng.sample(list(label_space(3, 4)), 50):
+                out += _three_modes(rng, es, gs, "all-labels-4x4(sampled)")[1:]
+            out += random_cases(rng, 450, 150)
         else:
             out += malformed_cases(rng, 600)
             for es, gs in small_space(3):
                 out += _three_modes(rng, es, gs, "exhaustive-small")
+            for ne, ng in ((4, 4), (3, 4), (4, 3), (3, 3)):
+                for es, gs in label_space(ne, ng):
+                    out += _three_modes(rng, es, gs, "all-labels-%dx%d" % (ne, ng))[1:]
             out += random_cases(rng, 8000, 2000)
         return out
 
@@ -492,14 +520,14 @@ class PipelineCorr(Corr):
             if (la["n"], la["g"], la["tp"], la["fp"]) != (n_t, g_t, tp_t, n_t - tp_t):
                 return f"label {t}: counts {la} differ from N={n_t} G={g_t} TP={tp_t}"
             for nm, got, want in zip(("accuracy", "precision", "recall", "F1"), la["s"], _expected_scores(n_t, g_t, tp_t)):
-                m = _cmp_score(f"label {t} {nm}", got, want) if tp_t <= g_t else None
+                m = _cmp_score(f"label {t} {nm}", got, want, check_range=tp_t <= g_t)
                 if m:
                     return m
             tot[0] += n_t
             tot[1] += g_t
             tot[2] += tp_t
         for nm, got, want in zip(("accuracy", "precision", "recall", "F1"), obs["summary"], _expected_scores(*tot)):
-            m = _cmp_score(f"summary {nm}", got, want) if tot[2] <= tot[1] else None
+            m = _cmp_score(f"summary {nm}", got, want, check_range=tot[2] <= tot[1])
             if m:
                 return m
         return None
@@ -629,14 +657,35 @@ class C11(Prop):
     technique = ("Rocq proof about an executable Gallina model of the two identity-based matchers (nested loops with list copies, "
                  "`in` tests and `remove` by identity) and of the classification scores; in-Coq correspondence against "
                  "get_object_results / ClassificationAccuracy / divide_objects / ClassificationMetricsScore._summarize")
-    level_text = ""
-    level_note = ""
-    rule = ("streams: boundary (hand-written), malformed (uuid None, duplicated (uuid, camera)), exhaustive small "
-            "(len(ests)+len(gts)<=3 over 3 uuids x 2 cameras x 3 labels; sampled in the quick tier), random <=4x4, random up to 30x30; "
-            "each object set is run as generic, traffic-light, traffic-light+uuid_matching_first; "
-            "non-trivial = at least one real pair and >= 3 objects")
-    assumptions = []
-    not_proved = []
+    level_text = ("Theorems (Props/C11.v, closed under the global context) for ALL object lists: generic matcher = 'same uuid and same "
+                  "camera', each object used at most once, leftover rule (unique non-null uuid per side and camera); traffic-light "
+                  "matcher one-to-one, same camera, label(+uuid) stage before uuid stage with nothing pairable left by either stage, and its "
+                  "number of equally-labelled pairs is >= that of EVERY admissible one-to-one same-camera pairing (first-fit over "
+                  "key-equality blocks is maximum) -- these need no uniqueness hypothesis; objects without uuid are rejected, guarded removes "
+                  "never fail; accuracy/precision/recall/F1 of ClassificationAccuracy and of _summarize equal TP/(N+G-TP), TP/N, TP/G, "
+                  "2TP/(N+G) with inf/nan exactly at zero denominators, lie in [0,1] when TP <= G (proved to hold for the matchers' outputs, "
+                  "per label and pooled), and are 1 in the perfect case. Model and code are compared on every run: pair lists in order, "
+                  "error kinds, all counts and scores (1e-9), end to end through divide_objects and ClassificationMetricsScore.")
+    level_note = ("Trusted: Coq kernel + vm_compute; the hand-written model Model/Classif.v tied by this run's correspondence; uuids encoded "
+                  "injectively as numbers, cameras/labels by enum index, the facts `frame_id == CAM_TRAFFIC_LIGHT` and `semantic_label.is_fp()` "
+                  "read from the objects by the harness. Objects are identified by their position in the caller's list (DynamicObject2D has no "
+                  "__eq__, so `in`/`remove` are by identity); a list containing the same Python object twice is outside the model.")
+    rule = RULE
+    assumptions = [
+        "generic matcher (id_match_spec): every uuid is set and (uuid, camera) is unique within the estimates and within the ground truths",
+        "traffic-light theorems: none beyond 'the matcher returned' (it returns whenever every uuid is set: C11_tlr_succeeds)",
+        "range theorems: TP <= number of ground truths (proved for the matchers' outputs; per label it needs that no ground truth carries "
+        "the FP label, which belongs to FP validation, not classification)",
+        "evaluation task CLASSIFICATION2D (not FP validation), MatchingLabelPolicy.DEFAULT (the policy the two matchers construct results with)",
+        "all objects of a call belong to one label family (the dispatch looks at estimated_objects[0] only)",
+    ]
+    not_proved = [
+        "float rounding of the score divisions (compared with the exact rationals within 1e-9 on every generated case)",
+        "lists that contain the same Python object twice (identity = position is assumed)",
+        "that filter_objects/divide_objects are applied consistently upstream (divide_objects is modelled and compared, not specified here)",
+        "ClassificationMetricsScore.__str__ formatting",
+    ]
+    runtime_observations = ["the caller's estimate / ground-truth lists are not modified by get_object_results (checked on every case)"]
 
     def correspondences(self):
         return [PipelineCorr(), ScoreCorr()]
